@@ -36,9 +36,11 @@ DOMAINS = {
         ("Inspector_sigdoc_quick.cfg", True),
         ("Inspector_cprop_quick.cfg", True),
         ("Inspector_relimp_quick.cfg", False),
+        ("Inspector_accessor_quick.cfg", False),
     ],
     "thorough": [
         ("Inspector_relimp_thorough.cfg", False, 16000),     # idem
+        ("Inspector_accessor_quick.cfg", False),
         ("Inspector_clean_thorough.cfg", True, 16000),      # model-checked exhaustively, seeded sample replayed
         ("Inspector_clean2_thorough.cfg", True),
         ("Inspector_full_thorough.cfg", False),
@@ -51,13 +53,14 @@ DOMAINS = {
 }
 # one TLC run per recorded root cause (Inspector_defect.cfg): the invariant TLC must refute + the small domain holding the trigger
 _D = {"MAININS": '{"init"}', "MAXSTMTS": 2, "STMTS": '{"def"}', "DECOS": '{"none"}', "SIGS": '{"s0"}', "DOCS": '{"none"}', "VALS": '{"lit"}',
-      "IMPORTS": '{"OK"}', "ASNAMES": '{"-"}', "LEVELS": "{1}", "CHAINS": '{"-"}'}
+      "IMPORTS": '{"OK"}', "ASNAMES": '{"-"}', "LEVELS": "{1}", "CHAINS": '{"-"}', "ALLOWINST": "FALSE", "INSTNAMES": '{"q"}'}
 DEFECTS = {
     "annonly": ("NoAnnOnly", dict(_D, STMTS='{"def", "annonly"}')),
     "import-self": ("NoImportSelf", dict(_D, MAININS='{"init", "sub"}', STMTS='{"import", "from"}')),
     "base-rebound": ("NoBaseRebound", dict(_D, MAXSTMTS=3, STMTS='{"class", "assign", "from"}', ASNAMES='{"-", "a"}')),
     "from-package-attribute": ("NoFromPackageAttribute", dict(_D, MAININS='{"mid", "deep"}', STMTS='{"from"}', IMPORTS='{"OK", "other"}',
                                                               ASNAMES='{"-", "a"}', LEVELS="{1, 2}")),
+    "init-assign-replaces-member": ("NoInitAssignReplacesMember", dict(_D, MAXSTMTS=3, STMTS='{"def", "class"}', ALLOWINST="TRUE", INSTNAMES='{"q", "a"}')),
     "ref": ("NoRef", dict(_D, STMTS='{"def", "assign", "ref"}')),
 }
 BATCH = 200
@@ -105,10 +108,11 @@ def skeleton(tree: dict, moddoc, side: str, pkg: str) -> dict:
         kind = r["kind"]
         if kind == "module":
             continue  # the package's own submodules: found on disk by the loader for both agents
-        if side == "static" and kind == "attribute":
-            init = tree.get(".".join(parts[:-1] + ["__init__"]))
-            if init and init["kind"] == "function" and init["lineno"] is not None and r["lineno"] is not None and init["lineno"] <= r["lineno"] <= init["endlineno"]:
-                continue  # instance attribute assigned in __init__
+        if side == "static" and kind == "attribute" and set(r["labels"]) == {"instance-attribute"} and r.get("hasvalue"):
+            # instance attribute assigned in __init__: the only static attributes that carry this label alone *and* a value
+            # (annotation-only class attributes have no value; an assignment that took over a class-level member carries
+            # that member's labels as well and is kept)
+            continue
         if kind == "alias":
             if r["tkind"] == "attribute":
                 sk[key] = _sk("attribute")  # origin of imported plain values
@@ -247,6 +251,7 @@ class Checker:
         self.causes_seen = set()
         self.stmt_seen = set()
         self.dyn_labels_seen = set()
+        self.smallest = {}
 
     def check(self, case: dict, res: dict, pkg: str):
         run = self.run
@@ -311,6 +316,9 @@ class Checker:
         predicted = {(".".join(d["path"]), d["clause"]): d["cause"] for d in case["diffs"]}
         for d in case["diffs"]:
             self.causes_seen.add(d["cause"])
+            w = self.smallest.get(d["cause"])
+            if w is None or (len(case["prog"]), case_key(case)) < (len(w["prog"]), case_key(w)):
+                self.smallest[d["cause"]] = case
         for m in case["dmeta"]:
             self.dyn_labels_seen.update(m["labels"])
         for pc, cause in predicted.items():
@@ -439,7 +447,10 @@ def main(tier: str, replay: str | None = None):
             for cfg, clean, *cap in DOMAINS[tier]:
                 caps[cfg] = cap[0] if cap else None
                 futs[pool.submit(tlc.run, "Inspector", cfg, workers=TLC_WORKERS[tier], timeout=3000, heap="2g" if tier == "quick" else "6g", env=JVM_ENV if tier == "quick" else None)] = ("domain", cfg, clean)
-            for cause, (inv, consts) in DEFECTS.items():
+            # thorough: one refutation run per open root cause (TLC must violate No<Cause>; its counterexample is the witness).
+            # quick: the machine-wide bound on concurrent JVMs makes 7 more runs expensive; there the witness of a cause is the
+            # smallest program the full domains emit with a predicted difference of that cause (DiffsComplete: skS # skD there).
+            for cause, (inv, consts) in (DEFECTS.items() if tier == "thorough" else ()):
                 futs[pool.submit(tlc.run, "Inspector", "Inspector_defect.cfg", workers=1, timeout=600, constants=dict(consts, INV=inv), dump_trace=True, heap="512m", env=JVM_ENV)] = ("defect", cause, inv)
             first = True
             for fut in as_completed(futs):
@@ -480,8 +491,10 @@ def main(tier: str, replay: str | None = None):
         print(f"replay done t+{time.time() - t0:.0f}s", flush=True)
     # every recorded root cause: TLC's counterexample program must show the very difference on the real code
     wcases = [{"main": st["main"], "mdoc": st["mdoc"], "prog": st["prog"], "cause": cause, "diffs": st["diffs"]} for cause, st in witnesses]
+    if tier != "thorough":
+        wcases = [{"main": c["main"], "mdoc": c["mdoc"], "prog": c["prog"], "cause": cause, "diffs": c["diffs"]} for cause, c in sorted(checker.smallest.items()) if cause in DEFECTS]
     confirm_witnesses(run, wcases)
-    expected_stmts = {"def", "class", "end", "assign", "ann", "annonly", "from", "import", "ref"}
+    expected_stmts = {"def", "class", "end", "assign", "ann", "annonly", "from", "import", "ref", "setter"}
     if not expected_stmts <= checker.stmt_seen:
         die(f"C17: vacuous run, statement kinds never generated: {sorted(expected_stmts - checker.stmt_seen)}")
     if not LABEL_VOCAB <= checker.dyn_labels_seen:
@@ -561,5 +574,6 @@ def _replay_constants(case: dict) -> dict:
         "ASNAMES": s([k["as"] for k in prog if k["t"] in ("from", "import")] or ["-"]),
         "CHAINS": s([k.get("chain", "-") for k in prog if k["t"] == "class"] or ["-"]),
         "LEVELS": "{" + ", ".join(str(x) for x in sorted({max(k.get("lvl", 1), 1) for k in prog if k["t"] == "from"} or {1})) + "}",
+        "INSTNAMES": s([k["what"] for k in prog if k["t"] == "def" and k["inst"]] or ["q"]),
         "ALLOWINST": "TRUE" if any(k["inst"] for k in prog) or any(k["n"] == "__init__" for k in prog) else "FALSE",
     }
